@@ -1,5 +1,4 @@
 import ast
-import pathlib
 from typing import Set
 
 from executing import Source
@@ -7,6 +6,7 @@ from executing import Source
 from ._global_state import state
 from ._rewrite_code import ChangeRecorder
 from ._rewrite_code import end_of
+from ._rewrite_code import read_source
 from ._rewrite_code import start_of
 
 
@@ -47,7 +47,7 @@ def used_externals_in(source) -> Set[str]:
 def used_externals() -> Set[str]:
     result = set()
     for filename in state().files_with_snapshots:
-        result |= used_externals_in(pathlib.Path(filename).read_text("utf-8"))
+        result |= used_externals_in(read_source(filename)[0])
 
     return result
 
